@@ -15,3 +15,8 @@ open IrVerif.Path
 #print axioms C10_call_open_safe
 #print axioms C10_call_result
 #print axioms C10_session_safe
+#print axioms C10_nul_rejected
+#print axioms C10_eloop_no_open
+#print axioms C10_fuel_discharged
+#print axioms C10_zero_size
+#print axioms C10_world_safe
